@@ -8,7 +8,9 @@
      clean   -> fault (stream fails at offset k, once / forever, read size rs): Iter!FaultOK, bounded
      wfault  -> Write to a writer that accepts k bytes: error iff k < length of the output
      full    -> stop (consumer returns false at callback k): Iter!StopOK / StopOKUnordered, no callback after stop;
-                ErrorIsLast for the iterators flagged wf *)
+                ErrorIsLast for the iterators flagged wf;
+                stoplong: the same for runs of thousands to millions of items, observed through their length and
+                their last items *)
 EXTENDS Integers, Sequences, FiniteSets, TLC, Json
 
 Trace == ndJsonDeserialize("trace.ndjson")
@@ -44,6 +46,16 @@ Reason(e, ref) ==
          ELSE IF e.after # 0 THEN "callback-after-stop"
          ELSE IF e.cfg = "unordered" THEN (IF IT!StopOKUnordered(e.ids, ref, e.k) THEN "ok" ELSE "stopped-run-not-distinct-members")
          ELSE IF ~IT!StopOK(e.ids, ref, e.k) THEN "stopped-run-not-a-prefix"
+         ELSE "ok"
+    [] e.op = "stoplong" ->       \* a long run: its length n, its last items (a window), pre = the items before the window were ref's
+         IF e.panic THEN "panic"
+         ELSE IF e.after # 0 THEN "callback-after-stop"
+         ELSE IF e.n # IT!Min2(e.k, Len(ref)) THEN "stopped-run-has-the-wrong-length"
+         ELSE IF e.cfg = "unordered" THEN
+              (IF /\ \A i \in 1..Len(e.ids) : \E j \in 1..Len(ref) : e.ids[i] = ref[j]
+                  /\ \A i, j \in 1..Len(e.ids) : i # j => e.ids[i] # e.ids[j]
+               THEN "ok" ELSE "stopped-run-not-distinct-members")
+         ELSE IF ~e.pre \/ Len(e.ids) > e.n \/ e.ids # SubSeq(ref, e.n - Len(e.ids) + 1, e.n) THEN "stopped-run-not-a-prefix"
          ELSE "ok"
     [] OTHER -> "CERT-unknown-op"
 
